@@ -23,7 +23,7 @@ META = {
         'whatever a reader accepted for version v the writers accept for v.  (D4) closure: the two writer ladders accept '
         'the same kinds, and every Python kind either reader can construct (ZINC parse actions, JSON cascade, raw JSON '
         'numbers/booleans, plain-dict column metadata) has a branch in both ladders -- "anything parsed can be dumped" '
-        'cannot fail for want of a branch.  Not decided: loss-freeness and idempotence as executions; whether '
+        'cannot fail for want of a branch.  Also: no dump function is memoised on its argument (equal values of different kinds have different texts); the ZINC escape pair (shared with C08.D1) and the exact JSON time conversion (shared with C05) keep both transcoding legs lossless.  Not decided: loss-freeness and idempotence as executions; whether '
         'timezone_name finds a zone for a parser-made fixed-offset tzinfo (tz database; its exception discipline is '
         'C17.D3).'),
     'rule_text': 'obligations = dumper functions x purity, determinism scan, gate comparisons, reader kinds x ladders',
